@@ -510,8 +510,48 @@ func genHello(r *rand.Rand) *tls.PubClientHelloMsg {
 	return q
 }
 
+// scsvWitness is the ClientHello of Proofs/GoCHP5.v `scsv_witness`: cipher suites = [TLS_EMPTY_RENEGOTIATION_INFO_SCSV], no
+// renegotiation_info extension, and an extension block of exactly 65535 bytes (one cookie extension with a 65529-byte cookie).
+func scsvWitness() []byte {
+	cookie := bytes.Repeat([]byte{7}, 65529)
+	ext := append([]byte{0, 44}, u16lp(u16lp(cookie))...)
+	body := append([]byte{3, 3}, make([]byte, 32)...)
+	body = append(body, 0)            // empty session id
+	body = append(body, 0, 2, 0, 255) // suites
+	body = append(body, 1, 0)         // compression
+	body = append(body, u16lp(ext)...)
+	return append([]byte{1, byte(len(body) >> 16), byte(len(body) >> 8), byte(len(body))}, body...)
+}
+
+// runScsvOverflow replays the witness of C31_reparse_stable_refuted on the real code.
+func runScsvOverflow(c *vh.Ctx) {
+	w := scsvWitness()
+	in := map[string]any{"construction": "suites=[0x00ff], no renegotiation_info, one cookie extension with 65529 bytes 0x07 (extension block = 65535 bytes)",
+		"length": len(w), "head_hex": vh.Hex(w[:56])}
+	p := tls.UnmarshalClientHello(w)
+	if p == nil {
+		c.Fail("model/scsv-witness-does-not-parse", "the model's witness is rejected by UnmarshalClientHello (model and code disagree)", in, "nil", "a message")
+		return
+	}
+	if out, err := p.Marshal(); err != nil || !bytes.Equal(out, w) {
+		c.Fail("marshal-raw/scsv-witness", "UnmarshalClientHello followed by Marshal does not reproduce the input", in, fmt.Sprint(err), "the input bytes")
+	}
+	b2, err := clearRaw(p).Marshal()
+	c.Count("scsv-witness-replayed")
+	if err != nil {
+		c.Fail("remarshal/scsv-ext-block-overflow", "a parsed ClientHello cannot be marshaled after clearing Raw: the renegotiation SCSV makes marshalMsg add a "+
+			"renegotiation_info extension the input did not have, and a full 65535-byte extension block overflows its length prefix",
+			in, "Marshal error: "+err.Error(), "bytes that parse to equal field values")
+		return
+	}
+	if p2 := tls.UnmarshalClientHello(b2); p2 == nil || len(diffFields(p, p2)) > 0 {
+		c.Fail("reparse/scsv-witness", "re-marshaled witness does not parse to equal field values", in, nil, nil)
+	}
+}
+
 func runHellos(c *vh.Ctx) {
 	r := c.Rng
+	runScsvOverflow(c)
 	// every parrot, fresh build
 	raws := map[string][]byte{}
 	for _, p := range parrots {
